@@ -35,7 +35,7 @@ def thresholds(tier):
 def knobs_for(rng):
   return {"depth": rng.choice([0, 1, 1, 2]), "max_children": rng.choice([1, 2, 3]), "p_ff": 0.15, "p_connect": rng.choice([0.6, 0.8]),
           "p_split": rng.choice([0.4, 0.7]), "p_struct": 0.4, "max_sigs": rng.choice([4, 6]), "expr_depth": 1, "p_if": 0.1,
-          "p_nested_field": rng.choice([0, 0.3]), "p_list_field": rng.choice([0, 0.3]), "p_func": rng.choice([0, 0.3]), "p_shadow": 0.3, "p_nested_slice": rng.choice([0, 0.5]), "p_vfunc": rng.choice([0, 0.4]), "p_subclass": rng.choice([0, 0.5])}
+          "p_nested_field": rng.choice([0, 0.3]), "p_list_field": rng.choice([0, 0.3]), "p_func": rng.choice([0, 0.3]), "p_shadow": 0.3, "p_nested_slice": rng.choice([0, 0.5]), "p_omit_bounds": rng.choice([0, 0.6]), "p_vfunc": rng.choice([0, 0.4]), "p_subclass": rng.choice([0, 0.5])}
 
 
 def expected_nets(design, ref):
@@ -49,7 +49,8 @@ def expected_nets(design, ref):
   dsts = set()
   nconst = [0]
   def name(host, r):
-    st = r["steps"]
+    st = [x[:3] if x[0] == "s" else x for x in r["steps"]]          # the name of a slice always spells both bounds
+    r = dict(r, steps=st)
     if len(st) >= 2 and st[-1][0] == "s" and st[-2][0] == "s":
       # a slice of a slice IS the slice with the absolute bounds (one object, one name)
       a = st[-2][1]
